@@ -156,9 +156,13 @@ class BMCI:
                  :math:`\chi^2` limits.
 
         """
-        y_proj = np.dot(self.pc1, (y_obs - self.y_mean).ravel())
-        s_l = y_proj - np.sqrt(2.0 * x2_max / self.pc1_e)
-        s_u = y_proj + np.sqrt(2.0 * x2_max / self.pc1_e)
+        dy = (y_obs - self.y_mean).ravel()
+        y_proj = np.dot(self.pc1, dy)
+        # The projections of the database were computed in one matrix product
+        # and may differ from this one in the last bits: allow for rounding.
+        slack = 1e-12 * (1.0 + np.abs(dy).sum())
+        s_l = y_proj - np.sqrt(2.0 * x2_max / self.pc1_e) - slack
+        s_u = y_proj + np.sqrt(2.0 * x2_max / self.pc1_e) + slack
         # Both bounds are inclusive (for x2_max = 0 exact matches must remain):
         inds = [np.searchsorted(self.pc1_proj, s_l, side="left"),
                 np.searchsorted(self.pc1_proj, s_u, side="right")]
